@@ -16,21 +16,12 @@
 (* harness replays each on the real library and TraceSession.tla judges    *)
 (* the recorded steps.                                                     *)
 (***************************************************************************)
-EXTENDS Integers, Sequences, FiniteSets, TLC, Json
+EXTENDS Integers, Sequences, FiniteSets, TLC, Json, SessionCalls
 
 CONSTANTS NCalls, MaxLen
 
 Toks == {"S", "B", "D", "Q"}    \* set-mode, bag-mode, shared default q-gram tokenizer (bag mode), set-mode q-gram
 InitMode == [k \in Toks |-> IF k \in {"S", "Q"} THEN 1 ELSE 0]      \* 1 = return_set
-
-(* which tokenizer a call uses ("-" none), the mode it forces (-1 none), rejected? *)
-CallTok(c)  == CASE c \in {1, 12, 14, 15, 19, 23, 24} -> "S"
-                 [] c \in {2, 3, 4, 5, 6, 9, 10, 13, 18} -> "B"
-                 [] c \in {7, 11} -> "D"
-                 [] c \in {8, 22} -> "Q"
-                 [] OTHER -> "-"
-CallNeeds(c) == CASE c \in (1..6) \cup {18, 19, 22, 23, 24} -> 1  [] c \in {7, 8} -> 0  [] OTHER -> -1
-Rejected(c) == c \in {9, 10, 11}
 
 VARIABLES hist, pos, phase, mode, saved
 vars == <<hist, pos, phase, mode, saved>>
